@@ -14,6 +14,7 @@
 //!         c13 engine <seed> <n>            end to end through the v1 engine
 //!         c13 overlong                     is an over-long LEB128 accepted by parse_artifact? (observation)
 mod ast;
+mod classify;
 mod engine;
 mod gen;
 use ast::*;
@@ -658,6 +659,11 @@ fn main() {
             let seed: u64 = a[2].parse().unwrap();
             let n: u64 = a[3].parse().unwrap();
             engine::run(seed, n);
+        }
+        "classify" => {
+            let seed: u64 = a[2].parse().unwrap();
+            let n: u64 = a[3].parse().unwrap();
+            classify::run(seed, n);
         }
         "overlong" => {
             // observation: the artifact parser accepts over-long LEB128 forms, so byte canonicity holds
